@@ -41,6 +41,7 @@ pub fn alphabet(full: bool) -> Vec<&'static str> {
         "1,2,3,1,0",
         "x",
         "Title: a // b",
+        " Mode: 1",
     ];
     if full {
         a.extend([
